@@ -735,7 +735,7 @@ class Intrinsics:
         if vk is None:
             raise Unsupported("symbolic key into empty concrete dict: value kind unknown")
         has = z3.K(ks, z3.BoolVal(False))
-        val = z3.K(ks, ex.lift(_default_of(vk))[0])
+        val = z3.K(ks, NONE_OBJ if vk == "any" else ex.lift(_default_of(vk))[0])
         for k, v in d.concrete.items():
             kt, _ = ex.lift(k)
             has = z3.Store(has, kt, z3.BoolVal(True))
@@ -833,6 +833,14 @@ class Intrinsics:
             self.dict_symbolize(d, key, val)
         kt, kk = ex.lift(key)
         vt, vk = ex.lift(val)
+        if kk == d.ksort and vk != d.vkind and (d.vkind == "any" or vk == "any"):
+            # a dict of opaque values that also holds ints / strings: those are boxed (injected into the opaque sort)
+            from .engine import BOX_INT, BOX_STR
+            if d.vkind in ("int", "str"):
+                d.val = z3.Map(BOX_INT if d.vkind == "int" else BOX_STR, d.val)
+                d.vkind = "any"
+            if vk != "any":
+                vt, vk = ex.box(val), "any"
         if kk != d.ksort or vk != d.vkind:
             raise Unsupported("heterogeneous symbolic dict")
         if d.order is not None:
